@@ -134,6 +134,8 @@ pub struct Obs {
     pub live_after: usize,
     /// number of distinct heap objects in the result graph
     pub result_objects: usize,
+    /// eval returned a value, and a monitor stopped the walk / release of that value afterwards
+    pub stop_in_walk: bool,
 }
 
 pub fn kind_of(e: &Error) -> (ErrKind, String) {
@@ -232,6 +234,7 @@ pub fn finish(r: std::thread::Result<Result<Object, Error>>, cfg: &ObsCfg) -> Ob
     let count = verif::instruction_count();
     let budget_hit = verif::budget_exhausted();
     let mut result_objects = 0;
+    let mut stop_in_walk = false;
     let outcome = match r {
         Ok(Ok(obj)) => {
             // the walk itself dereferences heap objects: the shadow heap may stop it
@@ -247,6 +250,7 @@ pub fn finish(r: std::thread::Result<Result<Object, Error>>, cfg: &ObsCfg) -> Ob
                 }
                 Err(p) => {
                     if p.is::<VerifStop>() {
+                        stop_in_walk = true;
                         Outcome::Stop
                     } else {
                         let (l, m) = take_panic();
@@ -289,6 +293,7 @@ pub fn finish(r: std::thread::Result<Result<Object, Error>>, cfg: &ObsCfg) -> Ob
         count,
         live_after,
         result_objects,
+        stop_in_walk,
     }
 }
 
